@@ -45,6 +45,41 @@ def run(ctx: Ctx):
     r11_4(ctx)
     r11_5(ctx)
     r11_6(ctx)
+    r11_7(ctx)
+
+
+def r11_7(ctx: Ctx, rule="R11.7"):
+    """The views of a System (iteration, indexing, length, composition, the instance generator) are functions of the
+    block list: they keep nothing on the System between calls.  A list of instances remembered on the object is not
+    extended when a topology is added later, so iteration and length would disagree."""
+    E = Effects(ctx.repo)
+    n = 0
+    for q in ("System.__iter__", "System.__getitem__", "System.__len__", "System.composition@get", "System._molecules_ordered_all_gen",
+              "System.__str__", "System.__repr__"):
+        f0 = ctx.repo.func(q, required=False)
+        if f0 is None:
+            continue
+        for f in ctx.with_helpers(f0):
+            n += 1
+            # the System's own attributes (and what they hold): the coordinate file's read cursor is not a view of the System
+            wr = [e for e in E.summary(f) if e.root[0] == "self" and e.kind in ("ATTR_STORE", "ITEM_STORE", "AUG_INPLACE", "MUT_CALL")
+                  and ("System." in e.target.replace("SystemGro.", "") or "self._" in e.target or "self." in e.target)
+                  and not e.target.startswith(("GroFile.", "SystemGro."))]
+            # something remembered on the System: stale unless every mutator resets it.  If add_molecule_top writes the same
+            # attribute the invalidation may be right; that is not decided here (reported only when nothing resets it)
+            add_ = ctx.repo.func("System.add_molecule_top", required=False)
+            reset = {e.target for e in E.summary(add_)} if add_ is not None else set()
+            und = bool(wr) and all(e.target in reset for e in wr)
+            if und:
+                ctx.ob(rule, f, "effects of %s on the System: %s" % (f.name, sorted({e.target for e in wr})), True,
+                       "a view of the System keeps state on it and add_molecule_top writes the same attribute(s); whether that "
+                       "invalidation is complete is not decided on this tree", undecided=True, node=f.node)
+                continue
+            ctx.ob(rule, f, "effects of %s on the System: %s" % (f.name, sorted({e.target for e in wr})), not wr,
+                   "reading a System (iteration, indexing, length, composition) stores nothing on it: every view is recomputed "
+                   "from the block list, so a topology added later is seen by all of them"
+                   + ("" if not wr else " -- " + wr[0].describe()), node=f.node)
+    ctx.floor(rule, n, 4, "System accessors")
 
 
 def r11_1_2(ctx: Ctx):
